@@ -189,7 +189,9 @@ type ReverseInnerSearcher struct {
 	fullDFA         *lazy.DFA // Forward DFA of the FULL pattern: gives the leftmost-first end from the match start
 	fwdCachePool    sync.Pool
 	revCachePool    sync.Pool
+	fullRevDFA      *lazy.DFA // Reverse DFA of the FULL pattern: the leftmost start of the match ending there
 	fullCachePool   sync.Pool
+	fullRevPool     sync.Pool
 }
 
 // NewReverseInnerSearcher creates a reverse inner searcher using AST splitting.
@@ -300,6 +302,16 @@ func NewReverseInnerSearcher(
 	if err != nil {
 		return nil, err
 	}
+	// ... and the reverse DFA of the full pattern, for the start of that match: the
+	// confirmed candidate only gives the leftmost start of a match through THAT
+	// literal, while a match that starts earlier may need a later one
+	// (`[ab]+(?:1.+2)?@\w+` on "a1 b@c 2@d" is [0 10], not [3 6]).
+	fullRevConfig := config
+	fullRevConfig.BreakAtMatch = false
+	fullRevDFA, err := lazy.CompileWithConfig(nfa.ReverseAnchored(fullNFA), fullRevConfig)
+	if err != nil {
+		return nil, err
+	}
 
 	// Detect universal prefix/suffix for Find optimization
 	// For patterns like `.*connection.*`:
@@ -323,6 +335,7 @@ func NewReverseInnerSearcher(
 		prefilter:       pre,
 		pikevm:          pikevm,
 		fullDFA:         fullDFA,
+		fullRevDFA:      fullRevDFA,
 		innerLen:        innerLen,
 		universalPrefix: universalPrefix,
 		universalSuffix: universalSuffix,
@@ -334,6 +347,9 @@ func NewReverseInnerSearcher(
 	}
 	s.fullCachePool = sync.Pool{
 		New: func() any { return s.fullDFA.NewCache() },
+	}
+	s.fullRevPool = sync.Pool{
+		New: func() any { return s.fullRevDFA.NewCache() },
 	}
 	s.revCachePool = sync.Pool{
 		New: func() any { return s.reverseDFA.NewCache() },
@@ -477,9 +493,13 @@ func (s *ReverseInnerSearcher) Find(haystack []byte) *Match {
 			continue
 		}
 
-		// EARLY RETURN: First confirmed match is leftmost by construction!
-		// Its end is the end of the leftmost-first match from matchStart.
-		start, end := s.spanFrom(haystack, matchStart, pos+matchEndRel)
+		// A candidate is confirmed, so a match exists: return the leftmost one
+		// (see spanFrom; matchStart / matchEndRel only describe the match through THIS literal).
+		_ = matchEndRel
+		start, end, found := s.spanFrom(haystack, 0)
+		if !found {
+			return nil
+		}
 		return NewMatch(start, end, haystack)
 	}
 
@@ -491,21 +511,23 @@ func (s *ReverseInnerSearcher) Find(haystack []byte) *Match {
 	return nil
 }
 
-// spanFrom returns the leftmost-first match of the full pattern that starts at
-// matchStart, a start confirmed by the reverse and forward scans around an inner
-// literal (candEnd is the end found through that literal).
-func (s *ReverseInnerSearcher) spanFrom(haystack []byte, matchStart, candEnd int) (start, end int) {
+// spanFrom returns the leftmost-first match that starts at or after 'at', once an inner
+// literal candidate has been confirmed (so a match exists): the forward DFA of the full
+// pattern from 'at' gives the leftmost match's end, its reverse DFA from there the start.
+func (s *ReverseInnerSearcher) spanFrom(haystack []byte, at int) (start, end int, found bool) {
 	fullCache := s.fullCachePool.Get().(*lazy.DFACache)
-	end = s.fullDFA.SearchAtAnchored(fullCache, haystack, matchStart)
+	end = s.fullDFA.SearchAt(fullCache, haystack, at)
 	s.fullCachePool.Put(fullCache)
-	if end >= 0 {
-		return matchStart, end
+	if end > at {
+		revCache := s.fullRevPool.Get().(*lazy.DFACache)
+		start = s.fullRevDFA.SearchReverse(revCache, haystack, at, end)
+		s.fullRevPool.Put(revCache)
+		if start >= 0 {
+			return start, end, true
+		}
 	}
-	// DFA gave up — fallback to PikeVM
-	if pStart, pEnd, found := s.pikevm.SearchAt(haystack, matchStart); found && pStart == matchStart {
-		return pStart, pEnd
-	}
-	return matchStart, candEnd
+	// empty match at 'at', or a DFA gave up - PikeVM
+	return s.pikevm.SearchAt(haystack, at)
 }
 
 // IsMatch checks if the pattern matches using inner prefilter + bidirectional DFA.
@@ -677,9 +699,9 @@ func (s *ReverseInnerSearcher) findIndicesAtImpl(haystack []byte, at int, fwdCac
 			continue
 		}
 
-		// Found valid match: its end is that of the leftmost-first match from matchStart
-		start, end := s.spanFrom(haystack, matchStart, pos+matchEndRel)
-		return start, end, true
+		// A candidate is confirmed, so a match exists: return the leftmost one (see spanFrom)
+		_ = matchEndRel
+		return s.spanFrom(haystack, at)
 	}
 
 	// Fallback to PikeVM
